@@ -114,6 +114,8 @@ static PDU* extra(int id, vh::Rng& rng, Entry& e) {
     case 153: { e = E_IP; IP ip("127.0.0.1"); ip.ttl(9); PDU* p = rng.coin() ? (ip / TCP(1, 2) / raw(rng, rng.range(1, 20))).clone() : (ip / UDP(7, 9) / raw(rng, rng.range(1, 20))).clone();
                 try { std::unique_ptr<PDU> c(p->clone()); (void)c->serialize(); } catch (std::exception&) { static_cast<IP*>(p)->src_addr("127.0.0.1"); }
                 return p; }
+    case 154: { ICMPv6 ic(ICMPv6::TIME_EXCEEDED); { std::vector<uint8_t> od(6, 0x11); ic.add_option(ICMPv6::option(1, od.begin(), od.end())); } ic.extensions().add_extension(some_ext(rng));      // options AND an extension structure
+                Bytes q = quoted6(rng, 8 * rng.range(11, 14)); return (eth0() / ip60() / ic / RawPDU(q.begin(), q.end())).clone(); }
     case 151: { RTP r; r.payload_type(96); r.padding_size((uint8_t)rng.range(1, 8)); if (rng.coin()) r.padding_size((uint8_t)rng.range(1, 8)); r.padding_size(0);      // padding switched on, changed, and off again
                 return (eth0() / ip0() / UDP(5004, 5004) / r / raw(rng, rng.range(1, 12))).clone(); }
     case 152: { IPSecAH ah; ah.spi(7); ah.seq_number(9); ah.icv(byte_array((size_t)(8 * rng.range(1, 4)), 0x5a)); return (eth0() / ip60() / ah / UDP(7, 9) / raw(rng, rng.range(1, 20))).clone(); }
